@@ -8,7 +8,7 @@
    in this model. *)
 From CV Require Import Promise.Promise Promise.PromiseProofs Promise.PromiseStepProofs Promise.MuProofs
   Promise.PromiseTheorems Promise.PromiseLive Promise.PromiseProxies Promise.PromiseJoin Promise.PromiseJoinProofs Promise.PromiseJoinThms Promise.PromiseJoinInv Promise.PromiseJoinRefs Promise.PromiseJoinForest Promise.PromiseJoinDest Promise.PromiseJoinChain Promise.PromiseJoinLive Promise.PromiseJoinStuck Promise.PromiseJoinZero Promise.PromiseJoinHook Promise.PromiseJoinPath
-  Promise.PromiseJoinHookStuck.
+  Promise.PromiseJoinHookStuck Promise.PromiseJoinLands.
 Open Scope Z_scope.
 
 (* the promise resolves at most once; Fulfill/Reject after the first one panics (OPanic), the
@@ -290,46 +290,11 @@ Theorem C11_join_chain_release : forall v np ops c,
 Proof. exact join_chain_release. Qed.
 Print Assumptions C11_join_chain_release.
 
-(* ---- round 7: the channel part of no_stuck and waiters_released on joined chains *)
-
-(* Preconditions: the code as it is (jv_close_joined, jv_alloc_table) and the precondition of Join (join_ordered).
-   If no thread can take a step then (1) the application holds a call inside a PipelineCaller, or (2) some
-   ClientPromise.Fulfill / Client.Release waits for the calls of a proxy hook to drain (PARTIAL: this alternative is
-   excluded for a single promise by C11_no_stuck, not yet on chains), or (3) every unfinished operation waits, directly
-   or through Join threads, for a promise that nobody has asked to resolve. *)
-Theorem C11_join_no_stuck_partial : forall v np ops c,
-  jv_close_joined v = true -> jv_alloc_table v = true -> join_ordered ops -> jreach v np ops c ->
-  (forall t, jenabled v c t = false) ->
-  (exists t th, nth_error (jthreads c) t = Some th /\ j_pc th = QInCaller /\
-                jop_gated (j_op th) = true /\ mem_nat t (jgates c) = false) \/
-  (exists t th, nth_error (jthreads c) t = Some th /\ (j_pc th = QFulWait \/ j_pc th = QRelWait)) \/
-  (forall t th, nth_error (jthreads c) t = Some th -> j_pc th <> QDone ->
-                exists r, p_caller (getp c r) = true).
-Proof. exact join_no_stuck_partial. Qed.
-Print Assumptions C11_join_no_stuck_partial.
-
-(* waiters_released on chains: at rest, no call held by the application, no hook wait, every promise asked to resolve
-   or joined => every operation (waiters, ReleaseClients, Client(), pipelined calls, Joins) has finished *)
-Theorem C11_join_waiters_released_partial : forall v np ops c,
-  jv_close_joined v = true -> jv_alloc_table v = true -> join_ordered ops -> jreach v np ops c ->
-  (forall t, jenabled v c t = false) ->
-  (forall t th, nth_error (jthreads c) t = Some th -> j_pc th = QInCaller ->
-                jop_gated (j_op th) = true -> mem_nat t (jgates c) = true) ->
-  (forall t th, nth_error (jthreads c) t = Some th -> j_pc th <> QFulWait /\ j_pc th <> QRelWait) ->
-  (forall k, p_caller (getp c k) = false) ->
-  forall t th, nth_error (jthreads c) t = Some th -> j_pc th = QDone.
-Proof. exact join_waiters_released_partial. Qed.
-Print Assumptions C11_join_waiters_released_partial.
-
-(* relation between the two models, PARTIAL: with zero Join operations the Join-specific state of PromiseJoin.v is
-   inert (no promise pending join or joined, no mu held at a section boundary, no thread in a Join section): each
-   promise runs the single-promise protocol on its own fields.  A full simulation on the projected observables is not
-   proved; the two models are additionally tied through the implementation (seq vs join 1 / par 1 histories). *)
-Theorem C11_join_zero_joins_inert_partial : forall v np ops c, Forall no_join_op ops -> jreach v np ops c ->
-  (forall k, p_next (getp c k) = None /\ p_joined (getp c k) = CNil /\ p_mu (getp c k) = None) /\
-  (forall t th, nth_error (jthreads c) t = Some th -> jjoin_pc (j_pc th) = false).
-Proof. exact join_zero_joins_inert. Qed.
-Print Assumptions C11_join_zero_joins_inert_partial.
+(* ---- deadlock freedom and released waiters on joined chains.
+   Premises of the chain theorems: the code as it is (jv_close_joined: resolve closes p.joined; jv_alloc_table: Join
+   allocates the client table of the promise joined onto; jv_refs_sum: Join hands over all clientsRefs) and the
+   precondition of Join (join_ordered: a promise only joins promises of lower index; self-join and cyclic joins are
+   refuted above).  C11_join_premises_satisfiable shows that they can be met together. *)
 
 (* hook waits on chains, Fulfill side: at rest with no call held inside a PipelineCaller, no resolver is waiting for the
    calls of a proxy hook to drain.  Proof: per-proxy counting (hook.calls = number of call threads that came through the
@@ -344,15 +309,79 @@ Theorem C11_join_fulfil_never_waits_for_hook : forall v np ops c,
 Proof. exact join_fulfil_never_waits_for_hook. Qed.
 Print Assumptions C11_join_fulfil_never_waits_for_hook.
 
-(* no_stuck on chains, Fulfill-side hook wait eliminated.  PARTIAL: alternative (2) is now only a ReleaseClients /
-   Client.Release call waiting for a hook (QRelWait) *)
-Theorem C11_join_no_stuck_chain_partial : forall v np ops c,
+
+(* hook waits on chains, Release side: ReleaseClients / Client.Release never waits for a proxy hook at all - it only
+   starts when the receiver's resolved channel is closed; then the next-chain from the receiver ends in a settled
+   (resolved) promise whose Fulfill loop has set the target of every proxy in its table, and a proxy with a target is
+   released without waiting *)
+Theorem C11_join_release_never_waits_for_hook : forall v np ops c,
+  jv_alloc_table v = true -> jreach v np ops c ->
+  forall t th, nth_error (jthreads c) t = Some th -> j_pc th <> QRelWait.
+Proof. exact join_release_never_waits_for_hook. Qed.
+Print Assumptions C11_join_release_never_waits_for_hook.
+
+(* the invariant behind it: a promise whose resolved channel is closed reaches, along next, a settled promise
+   (signals handed out, no next edge) and every proxy in that promise's table has its target set *)
+Theorem C11_join_resclosed_lands : forall v np ops c,
+  jv_alloc_table v = true -> jreach v np ops c ->
+  forall k, p_resclosed (getp c k) = true ->
+    exists r, nreach c k r /\ settled c r /\ (forall x, in_rows c r x -> jx_target (getx c x) <> None).
+Proof. exact join_resclosed_lands. Qed.
+Print Assumptions C11_join_resclosed_lands.
+
+(* no_stuck on chains, same shape as C11_no_stuck: if no thread can take a step then the application holds a call
+   inside a PipelineCaller (gated, not released), or every unfinished operation waits - on its own promise's resolved /
+   joined channel, or through Join threads - for a promise that nobody has asked to resolve *)
+Theorem C11_join_no_stuck : forall v np ops c,
   jv_close_joined v = true -> jv_alloc_table v = true -> join_ordered ops -> jreach v np ops c ->
   (forall t, jenabled v c t = false) ->
   (exists t th, nth_error (jthreads c) t = Some th /\ j_pc th = QInCaller /\
                 jop_gated (j_op th) = true /\ mem_nat t (jgates c) = false) \/
-  (exists t th, nth_error (jthreads c) t = Some th /\ j_pc th = QRelWait) \/
   (forall t th, nth_error (jthreads c) t = Some th -> j_pc th <> QDone ->
                 exists r, p_caller (getp c r) = true).
-Proof. exact join_no_stuck_chain_partial. Qed.
-Print Assumptions C11_join_no_stuck_chain_partial.
+Proof. exact join_no_stuck. Qed.
+Print Assumptions C11_join_no_stuck.
+
+(* waiters_released on chains: at rest, no call held by the application, every promise asked to resolve or joined =>
+   every operation (Done/Struct waiters, ReleaseClients, Client(), pipelined calls, Joins) has finished *)
+Theorem C11_join_waiters_released : forall v np ops c,
+  jv_close_joined v = true -> jv_alloc_table v = true -> join_ordered ops -> jreach v np ops c ->
+  (forall t, jenabled v c t = false) ->
+  (forall t th, nth_error (jthreads c) t = Some th -> j_pc th = QInCaller ->
+                jop_gated (j_op th) = true -> mem_nat t (jgates c) = true) ->
+  (forall k, p_caller (getp c k) = false) ->
+  forall t th, nth_error (jthreads c) t = Some th -> j_pc th = QDone.
+Proof. exact join_waiters_released. Qed.
+Print Assumptions C11_join_waiters_released.
+
+(* proxy targets on chains: every proxy in the client table of a settled (resolved) promise r - its own pipelined
+   clients and those moved to it by Joins - has been given r's result at the proxy's path.  With
+   C11_join_chain_release (the table is given up by the last ReleaseClients of the chain) this is
+   proxy_clients_resolved_and_released on chains. *)
+Theorem C11_join_proxy_targets : forall v np ops c,
+  jv_alloc_table v = true -> jreach v np ops c ->
+  forall r x res, settled c r -> p_result (getp c r) = Some res -> in_rows c r x ->
+    jx_target (getx c x) = Some (res_dest res (jx_path (getx c x))).
+Proof. exact join_proxy_targets. Qed.
+Print Assumptions C11_join_proxy_targets.
+
+(* the premises are satisfiable together: the variant of the code as it is, and an ordered history with two Joins
+   that runs to a configuration where every operation has finished *)
+Example C11_join_premises_satisfiable :
+  jv_close_joined jfixed = true /\ jv_alloc_table jfixed = true /\ jv_refs_sum jfixed = true /\
+  join_ordered premises_history /\
+  exists c, jreach jfixed 3 premises_history c /\ (forall t, jenabled jfixed c t = false) /\
+            (forall t th, nth_error (jthreads c) t = Some th -> j_pc th = QDone).
+Proof. exact join_premises_satisfiable. Qed.
+Print Assumptions C11_join_premises_satisfiable.
+
+(* relation between the two models, PARTIAL: with zero Join operations the Join-specific state of PromiseJoin.v is
+   inert (no promise pending join or joined, no mu held at a section boundary, no thread in a Join section): each
+   promise runs the single-promise protocol on its own fields.  A full simulation on the projected observables is not
+   proved; the two models are additionally tied through the implementation (seq vs join 1 / par 1 histories). *)
+Theorem C11_join_zero_joins_inert_partial : forall v np ops c, Forall no_join_op ops -> jreach v np ops c ->
+  (forall k, p_next (getp c k) = None /\ p_joined (getp c k) = CNil /\ p_mu (getp c k) = None) /\
+  (forall t th, nth_error (jthreads c) t = Some th -> jjoin_pc (j_pc th) = false).
+Proof. exact join_zero_joins_inert. Qed.
+Print Assumptions C11_join_zero_joins_inert_partial.
+
